@@ -53,6 +53,11 @@ def c13_desc(rng, nstructs, aligned):
         desc["structs"].append({"name": "Odd1", "fields": [
             {"name": "a", "id": 0, "type": ("u", lead)}, {"name": "l", "id": 1, "type": ("dyn", ("str",))},
             {"name": "o", "id": 2, "type": ("opt", ("u", 16))}, {"name": "f", "id": 3, "type": ("f32",)}, {"name": "w", "id": 4, "type": ("arr", ("u", 8), 2)}]})
+    # an enum that no field has as its own type: it is only the element type of containers (in the aligned mode a whole-byte one)
+    desc["enums"].append({"name": "EInner", "vals": [("Low", 1), ("Mid", 2), ("High", 200 if aligned else rng.choice([3, 5, 200]))]})
+    desc["structs"].append({"name": "Inner", "fields": [
+        {"name": "id", "id": 0, "type": ("u", 8)}, {"name": "o", "id": 1, "type": ("opt", ("enum", "EInner"))},
+        {"name": "a", "id": 2, "type": ("arr", ("enum", "EInner"), 2)}, {"name": "d", "id": 3, "type": ("dyn", ("enum", "EInner"))}]})
     return desc
 
 
